@@ -56,7 +56,9 @@ Iface(i) ==
         \* a second struct that refers to the first and to the enum
         t3 == M("type", "Outer", <<F("inner", Custom(tn1)), F("kind", Custom(en)), F("more", Wrap("arr", Custom(tn1)))>>, <<>>, <<>>, FALSE)
         nm == (i % 3) + 1
-        meth(x) == M("method", Pick(MethodNames, i + x * 3), fields((i + x) % 5, x, TRUE), fields((i + x * 2) % 4, x + 4, TRUE), <<>>, FALSE)
+        meth0(x) == M("method", Pick(MethodNames, i + x * 3), fields((i + x) % 5, x, TRUE), fields((i + x * 2) % 4, x + 4, TRUE), <<>>, FALSE)
+        \* (every other method carries comments: the generator writes them as doc lines in front of what it emits)
+        meth(x) == IF (i + x) % 2 = 0 THEN [meth0(x) EXCEPT !.comments = <<"Does it.", "Second line: (with) punctuation">>] ELSE meth0(x)
         \* two methods whose outputs have the same types under names that differ only in spelling: each must
         \* keep its own wire names
         tw1 == Pick(PlainSeq, i * 3 + 1)
